@@ -42,6 +42,10 @@ def _inputs(vc, dim, tag=""):
             b = b * 0.99e-3 * np.sqrt(a * c)  # native sampling: off-diagonal scaled into the positive-definite range
         vc.assume(a * c - b * b > 1e-6)
         S = np.array([[a, b], [b, c]], dtype=object if vc.symbolic else float)
+    if not vc.symbolic:
+        # native sampling over the physical range of innovation covariances: optical angles have variances ~1e-11 rad^2, ranges ~1e-6 km^2 (same statistic: nu scaled along)
+        k = 10.0 ** -vc.int("cov_scale_exp" + tag, 0, 12)
+        S, nu = S * k, nu * np.sqrt(k)
     return nu, S
 
 
